@@ -286,14 +286,66 @@ def rule_pool(ctx: Ctx) -> None:
     ctx.floor("C09-4", 4)
 
 
+def rule_round2(ctx: Ctx) -> None:
+    prog = ctx.prog
+    from .common import counting_symmetry
+    n = counting_symmetry(ctx, "C09-1", CONC)
+    need(n >= 3, f"C09-1: expected >= 3 counting concurrency models, found {n}")
+    # grants: capacity is handed back at most once — the latch release() tests is set by every way a grant can end
+    n_g = 0
+    for rel, cname in ((RES, "Grant"), (PRE, "PreemptibleGrant")):
+        c = prog.cls(rel, cname)
+        rl = c.methods["release"]
+        rf = ctx.flow(rl)
+        latch = set()
+        for st in walk_stmts(rl.node.body):
+            if isinstance(st, ast.If) and any(isinstance(b, ast.Return) for b in st.body):
+                latch |= {f.a for f in atoms(st.test, True) if f.op == "truthy"}
+        back = [k for k in calls_in(rl.node) if isinstance(k.func, ast.Attribute) and k.func.attr in ("_do_release", "_release")]
+        ok = bool(latch) and len(back) == 1
+        if ok:
+            sets = [st for st in walk_stmts(rl.node.body) if isinstance(st, ast.Assign) and path_of(st.targets[0]) in latch and isinstance(st.value, ast.Constant) and st.value.value is True]
+            ok = len(sets) == 1 and not always_before(ctx, rl, lambda x: x.ast is sets[0], lambda x: x is node_of(rf.cfg, back[0]))
+        ctx.ob("C09-2", "G2", rl, back[0] if back else None, ok, f"{cname}.release returns its capacity once: guarded by the latch {sorted(latch)}, which it sets before handing the units back")
+        n_g += 1
+        for m in c.methods.values():
+            if m.name in ("__init__", "release"):
+                continue
+            ends = [st for st in walk_stmts(m.node.body) if isinstance(st, ast.Assign) and (path_of(st.targets[0]) or "").startswith("self._") and isinstance(st.value, ast.Constant) and st.value.value is True]
+            if ends:
+                n_g += 1
+                ok2 = any(path_of(st.targets[0]) in latch for st in ends)
+                ctx.ob("C09-2", "G2", m, ends[0], ok2, f"{cname}.{m.name} ends the grant ({', '.join(sorted(path_of(e.targets[0]) for e in ends))}) and therefore also sets release()'s latch: a later release() must not credit the units a second time")
+    need(n_g >= 3, f"C09-2: expected >= 3 grant-ending sites, found {n_g}")
+    # pool waiter: after every sleep the hand-off flag is read before the wait can be given up
+    aq = prog.func(POOL, "ConnectionPool.acquire")
+    af = ctx.flow(aq)
+    give_up = [nd for nd in af.cfg.nodes if any(isinstance(k, ast.Call) and path_of(k.func) == "self._remove_waiter" for e in own_exprs(nd) for k in walk_scope(e))]
+    sleeps = [nd for nd in af.cfg.nodes if nd.kind == "stmt" and isinstance(nd.ast, ast.Expr) and isinstance(nd.ast.value, ast.Yield) and path_of(nd.ast.value.value) == "poll_interval"]
+    ok = len(give_up) == 1 and len(sleeps) >= 1
+    bad = []
+    if ok:
+        for sl in sleeps:
+            for p in enumerate_paths(af, sl, stop=lambda x: x is give_up[0]):
+                if p.end == "stop" and p.nodes[-1] is give_up[0]:
+                    if not any(nd.kind == "test" and unparse(nd.ast).replace(" ", "") == "received[0]" for nd in p.nodes[1:]):
+                        bad.append(p.describe()[:120] or "<loop exit>")
+    ctx.ob("C09-4", "G5", aq, sleeps[0].ast if sleeps else None, ok and not bad, "a queued ConnectionPool waiter re-reads the hand-off flag after every sleep before it gives up (a connection handed over during the last poll interval must not be left with a waiter that timed out)"
+           + ("" if not bad else " — path to the timeout without the check: " + bad[0]))
+
+
 def run(ctx: Ctx) -> None:
     ctx.guarded(rule_bounds)
     ctx.guarded(rule_wake)
     ctx.guarded(rule_blocking_waits)
     ctx.guarded(rule_pool)
+    ctx.guarded(rule_round2)
 
 
 MUTANTS = [
+    ("fixed-release-by-weight", CONC, "            weight: Ignored for FixedConcurrency (always 1).\n        \"\"\"\n        self._active = max(0, self._active - 1)", "            weight: Ignored for FixedConcurrency (always 1).\n        \"\"\"\n        self._active = max(0, self._active - weight)", "C09-1"),
+    ("preempt-leaves-release-latch-open", PRE, "        self._preempted = True\n        self._released = True\n", "        self._preempted = True\n", "C09-2"),
+    ("pool-waiter-sleeps-after-check", POOL, ["            yield poll_interval\n            elapsed += poll_interval\n\n            if received[0]:", "                    break\n\n        # Timeout - remove ourselves from waiters"], ["            if received[0]:", "                    break\n            yield poll_interval\n            elapsed += poll_interval\n\n        # Timeout - remove ourselves from waiters"], "C09-4"),
     ("resource-barging-restored", RES, "        if not self._waiters and self._available >= amount:", "        if self._available >= amount:", "C09-1"),
     ("resource-grant-gt", RES, "        if not self._waiters and self._available >= amount:", "        if not self._waiters and self._available > amount - 1:", "C09-1"),
     ("resource-try-acquire-ge-zero", RES, "        if self._available >= amount:\n            self._available -= amount\n            self._acquisitions += 1\n            self._update_peak_utilization()\n            return Grant(self, amount)", "        if self._available >= 0:\n            self._available -= amount\n            self._acquisitions += 1\n            self._update_peak_utilization()\n            return Grant(self, amount)", "C09-1"),
